@@ -698,6 +698,9 @@ func C12(c *core.Ctx) {
 	shareFrom(c, "C10", "R7", func(o *core.Obligation) bool {
 		return (o.Rule == "R2" && strings.Contains(o.Key, "/R2/ie-builder:")) || (o.Rule == "R3" && strings.Contains(o.Key, "/R3/profile-update-if-present:"))
 	}, 3, "report encoders and profile updates")
+	// ... and a URR is forgotten only under its removed mark: forgotten early (or never), its final report at the
+	// end of the session is lost (C11 R3)
+	shareFrom(c, "C11", "R7", func(o *core.Obligation) bool { return o.Rule == "R3" && strings.Contains(o.Key, "/R3/record-dropped") }, 2, "places that drop a URR record")
 	// R5 creation order in the handlers
 	for _, h := range []string{"handleSessionEstablishmentRequest", "handleSessionModificationRequest"} {
 		fn := fnOf(c, "R5", pkgPfcp, "PfcpServer", h)
